@@ -21,8 +21,10 @@ BUDGET_S = {'quick': 150, 'thorough': 400}
 RULE = ('seeded histories of OneToOne operations (item set/delete, update with dict/pairs/one-shot iterator/'
         'kwargs, |=, setdefault, pop, popitem, clear, copy) and ManyToMany operations (add, remove, m[k]=vals, '
         'del, replace, update with ManyToMany/mapping/pairs/iterator) applied at random to the forward or the '
-        'inverse object, values colliding with existing values; FrozenDict cases: every mutator, hash vs a '
-        'permuted rebuild, unhashable values, updated/copy/deepcopy/pickle; distinct = distinct model states '
+        'inverse object, values colliding with existing values, and calls that must be refused (unhashable key / value '
+        'alone or inside update() arguments: TypeError, both sides still exact inverses, nothing or a prefix applied); FrozenDict cases: every mutator, hash vs a '
+        'permuted rebuild, unhashable values, updated/copy/deepcopy/pickle (also of already-hashed instances holding '
+        'identity-hashed values, and pickles produced by interpreters with other hash seeds); distinct = distinct model states '
         'reached (pair sets) with >= 2 pairs')
 ASSUMPTIONS = [
     'keys and values are small hashable objects drawn from overlapping pools (so values collide)',
@@ -45,6 +47,17 @@ def lf(x):
     return tuple(x) if isinstance(x, list) else x
 
 
+class Ident(object):
+    """A value hashed by identity (the default): pickle and deepcopy recreate it, so anything derived from its
+    hash must be recomputed for the copy."""
+
+    def __init__(self, tag):
+        self.tag = tag
+
+    def __repr__(self):
+        return 'Ident(%r)' % (self.tag,)
+
+
 # ------------------------------------------------------------------ OneToOne
 
 class OtoCheck(object):
@@ -64,9 +77,14 @@ class OtoCheck(object):
             side = r.choice(['fwd', 'fwd', 'inv'])
             ks, vs = (K, V) if side == 'fwd' else (V, K)
             k, v = r.choice(ks), r.choice(vs)
-            name = r.choices(['set', 'del', 'update', 'ior', 'setdefault', 'pop', 'popitem', 'clear', 'copy'],
-                             [25, 8, 14, 8, 6, 8, 4, 1, 5])[0]
-            if name == 'set':
+            name = r.choices(['set', 'del', 'update', 'ior', 'setdefault', 'pop', 'popitem', 'clear', 'copy', 'bad'],
+                             [25, 8, 14, 8, 6, 8, 4, 1, 5, 5])[0]
+            if name == 'bad':
+                # a call that must fail (unhashable key or value): TypeError, and both sides still exact inverses
+                how = r.choice(['set-value', 'set-value', 'set-key', 'setdefault-value', 'update-pairs', 'update-dict',
+                                'update-iter', 'update-kw'])
+                ops.append([side, 'bad', how, k, self.gen_pairs(r, side) + [[k, v]], r.randint(0, 3)])
+            elif name == 'set':
                 ops.append([side, 'set', k, v])
             elif name == 'del':
                 ops.append([side, 'del', k])
@@ -152,7 +170,57 @@ class OtoCheck(object):
             def commit(M2):
                 return M2 if side == 'fwd' else {v: k for k, v in M2.items()}
             try:
-                if name == 'set':
+                if name == 'bad':
+                    how, k = op[2], lf(op[3])
+                    pairs = [(lf(a), lf(b)) for a, b in op[4]]
+                    j = min(op[5], len(pairs) - 1)
+                    bad = [(('zz-bad-key', [1, 2]) if n == j else (a, b)) for n, (a, b) in enumerate(pairs)]
+                    if how == 'set-value':
+                        got = outcome(obj.__setitem__, k, [1, 2])
+                    elif how == 'set-key':
+                        got = outcome(obj.__setitem__, [1, 2], k)
+                    elif how == 'setdefault-value':
+                        got = outcome(obj.setdefault, 'zz-new' if len(M) % 2 else k, [1, 2])
+                        if k in M and not len(M) % 2:
+                            got = ('exc', 'TypeError') if got == ('ok', M[k]) else got   # nothing to insert: fine
+                    elif how == 'update-pairs':
+                        got = outcome(obj.update, list(bad))
+                    elif how == 'update-iter':
+                        got = outcome(obj.update, iter(list(bad)))
+                    elif how == 'update-dict':
+                        got = outcome(obj.update, dict(bad))
+                    else:
+                        got = outcome(lambda: obj.update([], **{'kwbad': [1, 2], 'kwok': 'zz-kw'}))
+                    if got != ('exc', 'TypeError'):
+                        return Failure(i, 'result[bad:%s]' % how, 'an unhashable key/value gave %r, not TypeError' % (got,), op)
+                    # permitted afterwards: nothing happened, or a prefix of the pairs was applied
+                    cands = [dict(M)]
+                    if how.startswith('update-') and how != 'update-kw':
+                        seq = list(dict(bad).items()) if how == 'update-dict' else bad
+                        for upto in range(1, len(seq) + 1):
+                            c2 = dict(M)
+                            ok = True
+                            for a, b in seq[:upto]:
+                                if isinstance(b, list):
+                                    ok = False
+                                    break
+                                self.m_set(c2, a, b)
+                            if not ok:
+                                break
+                            cands.append(c2)
+                    if how == 'update-kw':
+                        c2 = dict(M)
+                        self.m_set(c2, 'kwok', 'zz-kw')
+                        cands.append(c2)
+                    now = dict(dict.items(obj))
+                    M = next((c2 for c2 in cands if c2 == now), None)
+                    if M is None:
+                        return Failure(i, 'state[bad:%s]' % how, 'after the refused call this side holds %r; permitted %r'
+                                       % (now, cands), op)
+                    D = commit(M)
+                    if stats is not None:
+                        stats.count('oto:refused-calls')
+                elif name == 'set':
                     k, v = lf(op[2]), lf(op[3])
                     obj[k] = v
                     self.m_set(M, k, v)
@@ -267,6 +335,8 @@ class OtoCheck(object):
         if op[0] == 'init':
             return 'oto:init:%s:%s' % (h.get('init_shape'), f.cls())
         parts = ['oto', op[1]]
+        if op[1] == 'bad':
+            return 'oto:unhashable-argument:%s:%s' % (op[2], f.cls().split('[')[0])
         if op[1] in ('update', 'ior'):
             parts.append(op[2])
             if len(op) > 4 and op[4]:
@@ -292,8 +362,13 @@ class M2mCheck(object):
             side = r.choice(['fwd', 'fwd', 'inv'])
             ks, vs = (A, B) if side == 'fwd' else (B, A)
             k, v = r.choice(ks), r.choice(vs)
-            name = r.choices(['add', 'remove', 'set', 'del', 'replace', 'update'], [30, 14, 10, 8, 12, 14])[0]
-            if name in ('add', 'remove'):
+            name = r.choices(['add', 'remove', 'set', 'del', 'replace', 'update', 'bad'], [30, 14, 10, 8, 12, 14, 6])[0]
+            if name == 'bad':
+                how = r.choice(['add-value', 'add-value', 'add-key', 'set-values', 'replace-newkey', 'update-pairs',
+                                'update-dict', 'remove-value'])
+                ops.append([side, 'bad', how, r.choice(ks + ['new']), [[r.choice(ks), r.choice(vs)] for _ in range(r.choice([1, 2, 3]))],
+                            r.randint(0, 2)])
+            elif name in ('add', 'remove'):
                 ops.append([side, name, k, v])
             elif name == 'set':
                 ops.append([side, 'set', k, [r.choice(vs) for _ in range(r.choice([0, 1, 2, 3]))]])
@@ -356,7 +431,48 @@ class M2mCheck(object):
             obj = m if side == 'fwd' else m.inv
             Q = set(P) if side == 'fwd' else set((v, k) for k, v in P)
             try:
-                if name == 'add':
+                if name == 'bad':
+                    how, k = op[2], lf(op[3])
+                    pairs = [(lf(a), lf(b)) for a, b in op[4]]
+                    j = min(op[5], len(pairs) - 1)
+                    bad = [(('zz-bad-key', [1, 2]) if n == j else (a, b)) for n, (a, b) in enumerate(pairs)]
+                    cands = [set(Q)]
+                    if how == 'add-value':
+                        got = outcome(obj.add, k, [1, 2])
+                    elif how == 'add-key':
+                        got = outcome(obj.add, [1, 2], k)
+                    elif how == 'remove-value':
+                        got = outcome(obj.remove, k, [1, 2])
+                        if got == ('exc', 'KeyError'):
+                            got = ('exc', 'TypeError')      # either refusal is fine
+                    elif how == 'set-values':
+                        vals = [b for _, b in bad]
+                        got = outcome(obj.__setitem__, k, vals)
+                    elif how == 'replace-newkey':
+                        got = outcome(obj.replace, k, [1, 2])
+                        if not any(p[0] == k for p in Q) and got == ('ok', None):
+                            got = ('exc', 'TypeError')      # nothing to rename: returning quietly is fine
+                    elif how == 'update-pairs':
+                        got = outcome(obj.update, list(bad))
+                        for upto in range(1, j + 1):
+                            cands.append(set(Q) | set(bad[:upto]))
+                    else:
+                        got = outcome(obj.update, dict(bad))
+                        seq = list(dict(bad).items())
+                        for upto in range(1, len(seq) + 1):
+                            if any(isinstance(b, list) for _, b in seq[:upto]):
+                                break
+                            cands.append(set(Q) | set(seq[:upto]))
+                    if got != ('exc', 'TypeError'):
+                        return Failure(i, 'result[bad:%s]' % how, 'an unhashable key/value gave %r, not TypeError' % (got,), op)
+                    now = readpairs(obj)
+                    Q = next((c2 for c2 in cands if c2 == now), None)
+                    if Q is None:
+                        return Failure(i, 'state[bad:%s]' % how, 'after the refused call this side holds %r; permitted %r'
+                                       % (sorted(map(repr, now)), [sorted(map(repr, c2)) for c2 in cands]), op)
+                    if stats is not None:
+                        stats.count('m2m:refused-calls')
+                elif name == 'add':
                     obj.add(lf(op[2]), lf(op[3]))
                     Q.add((lf(op[2]), lf(op[3])))
                 elif name == 'remove':
@@ -422,6 +538,8 @@ class M2mCheck(object):
         if op[0] == 'init':
             return 'm2m:init:' + f.cls()
         parts = ['m2m', op[1]]
+        if op[1] == 'bad':
+            return 'm2m:unhashable-argument:%s:%s' % (op[2], f.cls().split('[')[0])
         if op[1] == 'update':
             parts.append(op[2])
         if op[1] == 'replace':
@@ -522,6 +640,20 @@ def check_frozen(c, st):
                     % (how, hash(got[1]), fresh_hash(wantd)))
         if dict(fd) != snap:
             return ('frozen:derived:altered-original', '%s changed the original' % how)
+    # values hashed by identity: a deep copy / unpickled copy holds NEW objects and must hash like any FrozenDict
+    # freshly built from those objects (and be equal to it)
+    idfd = du.FrozenDict(items + [('zz-ident', Ident(len(items)))])
+    hash(idfd)
+    for how, fn in (('copy.deepcopy', lambda: copy.deepcopy(idfd)), ('pickle2', lambda: pickle.loads(pickle.dumps(idfd, 2))),
+                    ('pickle5', lambda: pickle.loads(pickle.dumps(idfd, 5))), ('copy.copy', lambda: copy.copy(idfd))):
+        got = outcome(fn)
+        st.monitor_evals += 1
+        if got[0] != 'ok' or type(got[1]) is not type(idfd):
+            return ('frozen:%s' % how.rstrip('025'), '%s of a FrozenDict with an identity-hashed value -> %r' % (how, got))
+        rebuilt = du.FrozenDict(list(dict.items(got[1])))
+        if rebuilt != got[1] or hash(rebuilt) != hash(got[1]):
+            return ('frozen:%s:hash-not-recomputed' % how.rstrip('025'), '%s copy hashes to %r, an equal FrozenDict built from '
+                    'its items to %r' % (how, hash(got[1]), hash(rebuilt)))
     for how, fn in (('copy.copy', lambda: copy.copy(fd)), ('copy.deepcopy', lambda: copy.deepcopy(fd)),
                     ('.copy()', lambda: fd.copy()), ('pickle0', lambda: pickle.loads(pickle.dumps(fd, 0))),
                     ('pickle2', lambda: pickle.loads(pickle.dumps(fd, 2))),
@@ -544,14 +676,61 @@ def gen_frozen(r):
             'unhashable': r.random() < 0.15}
 
 
+FOREIGN = r'''
+import pickle, sys
+sys.path.insert(0, sys.argv[1])
+from boltons.dictutils import FrozenDict
+out = []
+for items in ([('a', 1), ('b', 'two')], [('key', 'value')], [('x', ('t', 'u')), ('y', 'z'), ('w', 3)], []):
+    fd = FrozenDict(items)
+    hash(fd)                      # hashed before it is pickled
+    out.append((items, [pickle.dumps(fd, p) for p in (0, 2, 5)], pickle.dumps(FrozenDict(items), 2)))
+sys.stdout.buffer.write(pickle.dumps(out))
+'''
+
+
+def check_foreign_pickles(ctx):
+    """FrozenDicts pickled by another interpreter run with a different string-hash seed: loaded here they must be
+    equal to, and hash like, a FrozenDict built here from the same items."""
+    import subprocess, sys, os
+    du = common.load('dictutils')
+    st = ctx.stats
+    for seed in ('1', '12345'):
+        r = subprocess.run([sys.executable, '-c', FOREIGN, common.repo_dir()], capture_output=True, timeout=120,
+                           env=dict(os.environ, PYTHONHASHSEED=seed))
+        if r.returncode != 0:
+            st.count('inconclusive:foreign-pickle-producer-failed')
+            st.notes.append('foreign pickle producer: ' + r.stderr.decode('utf-8', 'replace')[-300:])
+            return
+        for items, dumps, unhashed in pickle.loads(r.stdout):
+            for blob in dumps + [unhashed]:
+                st.monitor_evals += 1
+                st.evaluations += 1
+                got = pickle.loads(blob)
+                here = du.FrozenDict(items)
+                if got != here or hash(got) != hash(here) or {got: 1}.get(here) != 1:
+                    st.violation('frozen:pickle:hash-from-another-process',
+                                 'FrozenDict(%r) pickled under PYTHONHASHSEED=%s (after hash()) and loaded here hashes to %r; '
+                                 'built here: %r' % (items, seed, hash(got), hash(here)),
+                                 {'case': {'foreign': True}})
+                    return
+                st.count('frozen_foreign_pickles')
+
+
 def run(ctx):
     n = {'quick': 5000, 'thorough': 80000}[ctx.tier]
+    if ctx.shard == 0:
+        check_foreign_pickles(ctx)
     explore(ctx, OtoCheck(), n, 'oto')
     explore(ctx, M2mCheck(), n, 'm2m')
     explore_cases(ctx, gen_frozen, check_frozen, n // 3, 'frozen')
 
 
 def replay(witness):
+    if 'case' in witness and witness['case'].get('foreign'):
+        ctx = common.Ctx(PROP, 'quick', 0, 1)
+        check_foreign_pickles(ctx)
+        return ctx.stats.violations[0]['what'] if ctx.stats.violations else None
     if 'case' in witness:
         r = check_frozen(witness['case'], common.Stats())
         return '%s: %s' % r if r else None
